@@ -234,5 +234,5 @@ MANIFEST = {
     "note": "Theorems are about the model with an abstract aggregate; the lock-step correspondence uses a test aggregate (public traits) and "
             "RepositoryAccess; CertAuth, the TA aggregates, the publication server's access and content aggregates and the signer-info aggregate are tied by the reloadcheck comparison on system / proto stream histories (seeded + corpus), and a generated table of every storable command kind with a reviewed, trace-verified coverage table (Props/C06Src.lean) makes sure every kind and stored shape is among them. Multi-store-object quirks (drop/remove/add clear one cache only, WAL truncate strands older "
             "caches) are modelled and excluded by hypothesis where krill's usage excludes them.",
-    "technique": "Lean 4 proof (refinement invariant, induction over histories) + correspondence check",
+    "technique": "Lean 4 proof (refinement invariant, induction over histories; instantiated with the CertAuth / TA proxy / TA signer models) + correspondence check + source translator (every storable command / event kind with fields and serde attributes; reviewed coverage table verified against the traces)",
 }
